@@ -5,7 +5,7 @@ from ..gen import Opt, schema_lines, LIST, MULTI, TITLE, NOCASE
 from .C11 import parse_dump, TITLES, gen_text
 
 THEOREMS = ["C19_effective_filter", "C19_once_in_order", "C19_section_instances", "C19_inherit", "C19_own_filter",
-            "C19_unset_commented", "C19_callback", "C19_scalar_indent"]
+            "C19_unset_commented", "C19_callback", "C19_scalar_indent", "C19_pointer_without_callback"]
 PARTIAL = ""
 VARIANT = "asan"
 RULE = ("random + hand-built schemas (some options with a print callback) x states reached by parsing and by setters x print "
@@ -51,7 +51,7 @@ def generate(rng, tier):
     nschema = 160 if tier == "quick" else 1500
     per = 8 if tier == "quick" else 20
     for _ in range(nschema):
-        opts = with_printcb(rng, gen.rand_schema(rng, maxdepth=3, allow=("int", "float", "bool", "str", "sec", "func"), p_flags=0.3))
+        opts = with_printcb(rng, gen.rand_schema(rng, maxdepth=3, allow=("int", "float", "bool", "str", "sec", "func", "ptr"), p_flags=0.3))
         sl = schema_lines(opts)
         names = [o.name for _p, o in gen.all_opts(opts)]
         secs = [p for p, o in gen.all_opts(opts) if o.ty == "sec"]
@@ -100,7 +100,8 @@ def expected_seq(tree, eff, depth, filt_by_node):
                 out.append((depth, nd.name))
                 own = filt_by_node.get(id(sub))
                 out += expected_seq(sub, own if own is not None else eff, depth + 1, filt_by_node)
-        elif nd.ty == "func":
+        elif nd.ty in ("func", "ptr"):
+            # no text of their own: written only through a print callback (F35)
             if nd.printcb:
                 out.append((depth, nd.name))
         else:
